@@ -92,10 +92,11 @@ ArchWalk(all, j, L) ==
 \* garbageCollectRevisions: the len(prev) - limit oldest previous revisions, oldest first, stopping at the first one that
 \* is NOT archived (fix 244db63: a revision that is not archived may still be serving; before the fix the oldest k were
 \* deleted whatever their state)
+PruneAnyState == FALSE       \* TRUE (negative control only): the code before fix 244db63
 RECURSIVE PruneFrom(_, _, _)
 PruneFrom(s, k, L) ==
     IF s = <<>> \/ k <= 0 THEN <<>>
-    ELSE IF L[Head(s)].life = "Archived" THEN << [op |-> "del", n |-> Head(s)] >> \o PruneFrom(Tail(s), k - 1, L)
+    ELSE IF PruneAnyState \/ L[Head(s)].life = "Archived" THEN << [op |-> "del", n |-> Head(s)] >> \o PruneFrom(Tail(s), k - 1, L)
     ELSE <<>>
 PruneOps(prevSorted, limit, L) == PruneFrom(prevSorted, Len(prevSorted) - limit, L)
 
